@@ -311,6 +311,10 @@ def _mirror_value(t, u, here):
             got.append("enum")
         elif isinstance(rw, tuple) and rw[0] == "off":
             got.append(("off", rw[1], rw[2]))
+        elif isinstance(rw, tuple) and rw[0] == "test":
+            # a truth test other than "!= 0": it inverts the writer's 1 / 0 when it is right at those two numbers
+            d = dict(rw[1])
+            got.append("neq0" if d.get(0) is False and d.get(1) is True else rw)
         else:
             got.append(rw)
     if sorted(map(repr, want)) != sorted(map(repr, got)):
